@@ -144,4 +144,41 @@ theorem makePoly_isSome {n d r : Nat} (hd0 : 1 < d) (hdodd : d % 2 = 1) (hd : d 
       exact hc (evenB d b0) (d * d) heb (le_refl _))]
     exact ⟨_, rfl⟩
 
+/-- what `sieve_for_polys` promises for every pair it returns -/
+theorem sieveForPolys_sound (n bmin width : Nat) : ∀ dr ∈ sieveForPolys n bmin width,
+    bmin ≤ dr.1 ∧ dr.1 < bmin + width ∧ dr.1 % 4 = 3 ∧ dr.2 * dr.2 % dr.1 = n % dr.1 ∧
+    Nat.gcd (n % dr.1) dr.1 = 1 ∧
+    (∀ p ∈ Ymq.Gen.Primality.smallPrimes, p ∣ dr.1 → ¬ (bmin > p ∨ dr.1 ≥ 2 * p)) := by
+  intro dr hdr
+  unfold sieveForPolys at hdr
+  obtain ⟨i, hi, hf⟩ := List.mem_filterMap.mp hdr
+  have hiw : i < width := List.mem_range.mp hi
+  dsimp only at hf
+  split at hf
+  · cases hf
+  · rename_i hmark
+    split at hf
+    · cases hf
+    · rename_i h4
+      split at hf
+      · cases hf
+      · rename_i hd0
+        split at hf
+        · cases hf
+        · rename_i hg
+          split at hf
+          · rename_i hsq
+            injection hf with hf
+            subst hf
+            simp only
+            refine ⟨by omega, by omega, by omega, hsq, by omega, ?_⟩
+            intro p hp hdvd hcond
+            apply hmark
+            apply List.any_eq_true.mpr
+            refine ⟨p, hp, ?_⟩
+            unfold marked
+            simp only [Bool.and_eq_true, beq_iff_eq, Bool.or_eq_true, decide_eq_true_eq]
+            exact ⟨Nat.mod_eq_zero_of_dvd hdvd, hcond⟩
+          · cases hf
+
 end Ymq.PolyMpqs
